@@ -151,11 +151,16 @@ def gen_reader_case(rng):
     unsorted = rng.random() < 0.2
     recs = []
     p, last = 0, None
+    # (round 10) tables that begin at POS 1 = 0-based position 0, the only falsy position
+    origin = rng.random() < 0.4
     for c in [rng.choice(names) for _ in range(rng.choice([1, 1, 2, 3]))]:
-        p = p + 3 if c == last else rng.randrange(5, 40)      # the same name twice in a row is one table
+        first = c != last
+        p = p + 3 if c == last else 1 if origin else rng.randrange(5, 40)      # the same name twice in a row is one table
         last = c
         for _ in range(rng.randrange(1, 8)):
             step = rng.choice([0, 0, 3, 7, 11])
+            if origin and first:
+                step, first = 0, False
             if unsorted and rng.random() < 0.25:
                 step = -rng.choice([1, 4])
             p = max(1, p + step)
@@ -185,7 +190,7 @@ def gen_reader_case(rng):
             recs.append(dict(chrom=c, pos=p - 1, ref=ref, alts=alts, format=["GT", "DP"] if has_gt else ["DP"], calls=calls,
                              info="END=%d" % (p + 3) if kind == "sym" else "."))
     return {"kind": "reader", "samples": [f"S{i}" for i in range(n_samples)], "records": recs, "only_snvs": rng.random() < 0.35,
-            "shape": ("odd-ploidy " if odd_ploidy else "") + ("unsorted" if unsorted else "sorted")}
+            "shape": ("odd-ploidy " if odd_ploidy else "") + ("unsorted" if unsorted else "sorted") + (" from POS 1" if origin else "")}
 
 
 def write_reader_vcf(case, path):
